@@ -87,11 +87,12 @@ const (
 	kInputArr
 	kSeq
 	kNull
+	kNegNum
 	c20NumKinds
 )
 
-var c20KindSrc = []string{"2.5", `"s"`, "true", `[1, "a"]`, `{"k": 1}`, "function($x){$x}", "$sum", "nothing", "arr", "items.v", "null"}
-var c20KindPayload = []string{"2.5", `"s"`, "true", `[1,"a"]`, `{"k":1}`, "<function>", "<function>", "", `[1,"a"]`, `[1,"a"]`, "null"}
+var c20KindSrc = []string{"2.5", `"s"`, "true", `[1, "a"]`, `{"k": 1}`, "function($x){$x}", "$sum", "nothing", "arr", "items.v", "null", "(-2.5)"}
+var c20KindPayload = []string{"2.5", `"s"`, "true", `[1,"a"]`, `{"k":1}`, "<function>", "<function>", "", `[1,"a"]`, `[1,"a"]`, "null", "-2.5"}
 
 var c20Doc = map[string]interface{}{"arr": []interface{}{1.0, "a"}, "items": []interface{}{map[string]interface{}{"v": 1.0}, map[string]interface{}{"v": "a"}}, "c": "ctx", "n": 9.0}
 
@@ -125,9 +126,15 @@ func c20Conv(t c20T, k c20Kind) (string, bool) {
 		if k == kNum {
 			return "f64:2.5", true
 		}
+		if k == kNegNum {
+			return "f64:-2.5", true
+		}
 	case tInt:
 		if k == kNum {
 			return "int:2", true
+		}
+		if k == kNegNum {
+			return "int:-2", true // conversion to an integer kind drops the fraction
 		}
 	case tU8:
 		if k == kNum {
@@ -759,6 +766,9 @@ func init() {
 					nargs = c.Choose(3) // 0, 1 or 2 arguments in the tail
 				}
 				c.Done()
+				if k == kNegNum && t.under() == tU8 {
+					return // a negative number has no unsigned value: the statement is silent
+				}
 				args := make([]c20Kind, nargs)
 				for i := range args {
 					args[i] = k
